@@ -12,7 +12,7 @@ bug-compatible, of the string surgery in
   * `expressions/source_code.py` `NixSourceCode.rebuild`
   * `expressions/parenthesis.py` `Parenthesis.rebuild`
   * `expressions/function/call.py` `FunctionCall.rebuild`
-  * `expressions/select.py`      `Select.rebuild` (the branch without default)
+  * `expressions/select.py`      `Select.rebuild`
   * `expressions/with_statement.py` `WithStatement.rebuild`, `expressions/assertion.py` `Assertion.rebuild`
     (one stated deviation each: the trim of `environment.before` / `condition.before` that `rebuild`
     applies to a copy is left out — `from_cst` never writes these fields, they are `[]` on everything
@@ -176,6 +176,26 @@ def selSep (exprStr : Text) (attrGap : Text) (attrBefore : List Trivia) (indent 
   let sep := if endsWithNL exprStr && startsWithNL r.2 then r.2.drop 1 else r.2
   r.1 ++ sep
 
+/-- `Select.rebuild`: the text between the attrpath and `or` -/
+def selOrSep (dfltGap : Text) (dfltBefore : List Trivia) (indent : Nat) : Text :=
+  let l := Layout.fromGap dfltGap
+  if l.onNewline then
+    let dIndent := l.indent.getD (indent + 2)
+    let sep : Text := if l.blankLine then ['\n', '\n'] else ['\n']
+    -- a first inline comment stays on the line of the attrpath
+    let sp : Text × List Trivia := match dfltBefore with
+      | .comment c :: rest => if c.inline then ([' '] ++ c.rebuild 0, rest) else ([], dfltBefore)
+      | _ => ([], dfltBefore)
+    let cs := if sp.2.isEmpty then [] else formatTrivia sp.2 dIndent
+    let cs := if !cs.isEmpty && !endsWithNL cs then cs ++ ['\n'] else cs
+    sp.1 ++ sep ++ cs ++ spaces dIndent
+  else [' ']
+
+/-- the indentation the default of a select is rendered at -/
+def selOrIndent (dfltGap : Text) (indent : Nat) : Nat :=
+  let l := Layout.fromGap dfltGap
+  if l.onNewline then l.indent.getD (indent + 2) else indent
+
 def kwWith : Text := ['w', 'i', 't', 'h']
 def kwAssert : Text := ['a', 's', 's', 'e', 'r', 't']
 
@@ -286,6 +306,13 @@ def Expr.rebuildA : Expr → Bool → Nat → Bool → Text
     let after := if noAfter then [] else after
     let exprStr := expr.rebuildA false indent true
     addTrivia before after (exprStr ++ selSep exprStr attrGap attrBefore indent ++ '.' :: attrText attrs) indent inline
+  | .selOr expr attrs attrGap attrBefore dflt dfltGap dfltBefore before after, noAfter, indent, inline =>
+    let after := if noAfter then [] else after
+    let exprStr := expr.rebuildA false indent true
+    addTrivia before after
+      (exprStr ++ selSep exprStr attrGap attrBefore indent ++ '.' :: attrText attrs ++
+        selOrSep dfltGap dfltBefore indent ++ ['o', 'r', ' '] ++ dflt.rebuildA false (selOrIndent dfltGap indent) true)
+      indent inline
 /-- `[item.rebuild(indent, inline) for item in items]` -/
 def rebuildAll : List Expr → Nat → Bool → List Text
   | [], _, _ => []
@@ -576,6 +603,13 @@ def Expr.rebuildAP : Expr → Bool → Nat → Bool → List FP
     let exprP := expr.rebuildAP false indent true
     addTriviaP before after
       (exprP ++ [.ws (selSep (concat exprP) attrGap attrBefore indent), .tok ['.']] ++ attrP attrs) indent inline
+  | .selOr expr attrs attrGap attrBefore dflt dfltGap dfltBefore before after, noAfter, indent, inline =>
+    let after := if noAfter then [] else after
+    let exprP := expr.rebuildAP false indent true
+    addTriviaP before after
+      (exprP ++ [.ws (selSep (concat exprP) attrGap attrBefore indent), .tok ['.']] ++ attrP attrs ++
+        [.ws (selOrSep dfltGap dfltBefore indent), .tok ['o', 'r'], .ws [' ']] ++
+        dflt.rebuildAP false (selOrIndent dfltGap indent) true) indent inline
 def rebuildAllP : List Expr → Nat → Bool → List (List FP)
   | [], _, _ => []
   | e :: rest, indent, inline => e.rebuildAP false indent inline :: rebuildAllP rest indent inline
